@@ -234,4 +234,9 @@ func runC02(c *Ctx) {
 		}
 	}
 	c.R.Floor(r6, 7)
+
+	// R7: the end of a callee's session always reaches the dealer (so that R4 applies)
+	const r7 = "C02.R7 a session's end reaches the dealer"
+	ruleSessionRemoval(c, r7)
+	c.R.Floor(r7, 14)
 }
